@@ -105,8 +105,21 @@ pub fn worker_main(args: &[String]) -> i32 {
     for i in idx {
         { let mut o = out.lock(); writeln!(o, "B {}", i).unwrap(); o.flush().unwrap(); }
         let seed = mix(base, id, i);
-        let trace = check.generate(seed, tier, &env);
-        let rep = check.execute(&trace, &env);
+        // a panic out here (outside the guarded calls into smartcalc) is a harness bug, never a finding
+        let run = std::panic::catch_unwind(std::panic::AssertUnwindSafe(|| {
+            let trace = check.generate(seed, tier, &env);
+            let rep = check.execute(&trace, &env);
+            (trace, rep)
+        }));
+        let (trace, rep) = match run {
+            Ok(x) => x,
+            Err(_) => {
+                let mut o = out.lock();
+                writeln!(o, "X {} harness panic while generating/executing index {} (seed {})", i, i, seed).unwrap();
+                o.flush().unwrap();
+                continue;
+            }
+        };
         let mut vios = Vec::new();
         for v in rep.violations.iter() {
             let first = seen.insert(v.key.clone());
@@ -213,6 +226,7 @@ enum Msg {
     End { w: usize },
     Eof { w: usize },
     Garbage { w: usize, text: String },
+    HarnessPanic { w: usize, i: u64, text: String },
 }
 
 struct Worker {
@@ -243,6 +257,8 @@ fn spawn_worker(id: &str, tier: &str, base: u64, total: u64, zone: u64, indices:
                 Msg::Begin { w, i: rest.trim().parse().unwrap_or(u64::MAX) }
             } else if let Some(rest) = line.strip_prefix("R ") {
                 match serde_json::from_str::<RunLine>(rest) { Ok(l) => Msg::Run { w, line: Box::new(l) }, Err(e) => Msg::Garbage { w, text: format!("unparsable R line: {}", e) } }
+            } else if let Some(rest) = line.strip_prefix("X ") {
+                Msg::HarnessPanic { w, i: rest.split(' ').next().and_then(|x| x.parse().ok()).unwrap_or(u64::MAX), text: rest.to_string() }
             } else if line == "E" { Msg::End { w } } else { Msg::Garbage { w, text: line } };
             if tx2.send(msg).is_err() { break; }
         }
@@ -350,6 +366,7 @@ pub fn check_main(args: &[String]) -> i32 {
     let mut harness_errors: Vec<String> = Vec::new();
     // indices whose execution did not come back (hang or abort): (index, why)
     let mut lost: Vec<(u64, String)> = Vec::new();
+    let mut harness_lost = 0u64;
     loop {
         if workers.iter().all(|w| w.eof) { break; }
         match rx.recv_timeout(Duration::from_millis(500)) {
@@ -360,6 +377,12 @@ pub fn check_main(args: &[String]) -> i32 {
                 agg.add(*line);
             }
             Ok(Msg::End { w }) => { workers[w].done = true; }
+            Ok(Msg::HarnessPanic { w, i, text }) => {
+                workers[w].open = None;
+                workers[w].pending.retain(|x| *x != i);
+                harness_errors.push(text);
+                harness_lost += 1;
+            }
             Ok(Msg::Garbage { w, text }) => { harness_errors.push(format!("worker {} printed unexpected line: {}", w, text.chars().take(200).collect::<String>())); }
             Ok(Msg::Eof { w }) => {
                 let st = workers[w].child.wait().ok();
@@ -552,7 +575,7 @@ pub fn check_main(args: &[String]) -> i32 {
     for l in out_lines.iter() { println!("{}", l); }
     println!("runs={} distinct_nontrivial={} judged={} unjudged={} calls={} clock_reads={} faults_fired={} wall={:.1}s", agg.runs, agg.nontrivial_hashes.len(), agg.judged, agg.unjudged, agg.evaluations, agg.clock_reads, fault_kinds.values().sum::<u64>(), wall);
     println!("faults: {}", fault_kinds.iter().map(|(k, v)| format!("{}={}", k, v)).collect::<Vec<_>>().join(" "));
-    if agg.runs + confirmed_lost.len() as u64 != total {
+    if agg.runs + confirmed_lost.len() as u64 + harness_lost != total {
         harness_errors.push(format!("expected {} runs, got {} results and {} confirmed lost", total, agg.runs, confirmed_lost.len()));
     }
     if !harness_errors.is_empty() {
